@@ -125,24 +125,39 @@ func newScriptNumber(v int, desc string) (*scriptEnv, string) {
 		n = newRoot(v, 3, "bigrat", bigOf(parts[1]), bigOf(parts[2]))
 	case "R":
 		n = newRat(v, bigOf(parts[1]), bigOf(parts[2]))
-	case "T":
+	case "T", "TM":
 		if v != 3 {
 			return nil, "na"
 		}
 		exp, _ := strconv.Atoi(parts[3])
-		x, err := sq3.NewNumberForTesting(digitsOf(parts[1]), digitsOf(parts[2]), exp)
+		f, rp := digitsOf(parts[1]), digitsOf(parts[2])
+		x, err := sq3.NewNumberForTesting(f, rp, exp)
 		if err != nil {
 			return nil, "err:" + strings.ReplaceAll(err.Error(), " ", "_")
 		}
+		if parts[0] == "TM" { // C14: the caller overwrites its slices after construction
+			for i := range f {
+				f[i] = 9 - f[i]
+			}
+			for i := range rp {
+				rp[i] = 9 - rp[i]
+			}
+		}
 		n = Num{v: 3, n3: x}
-	case "F":
+	case "F", "FM":
 		if v != 3 {
 			return nil, "na"
 		}
 		exp, _ := strconv.Atoi(parts[2])
-		x, err := sq3.NewFiniteNumber(digitsOf(parts[1]), exp)
+		f := digitsOf(parts[1])
+		x, err := sq3.NewFiniteNumber(f, exp)
 		if err != nil {
 			return nil, "err:" + strings.ReplaceAll(err.Error(), " ", "_")
+		}
+		if parts[0] == "FM" {
+			for i := range f {
+				f[i] = 9 - f[i]
+			}
 		}
 		n = Num{v: 3, n3: x}
 	case "G":
